@@ -3,6 +3,7 @@
 # /verif/seeded to /repo, runs the quick check(s) that meta.json names, expects a VIOLATION, and undoes it.
 # Must not run while anything else uses /repo.
 cd "$(dirname "$0")"
+export VERIF_EVIDENCE_DIR=/verif/work/seeded-evidence   # never overwrite the evidence of the unchanged tree
 IDS="$@"; [ -z "$IDS" ] && IDS=$(ls seeded | grep -v confirm.sh)
 fail=0
 for id in $IDS; do
